@@ -14,7 +14,8 @@ PROPERTY = "C02"
 LEVEL = "exploration"
 SHARDS = {"quick": 8, "thorough": 16}
 RULE = ("part 'exhaustive': every string up to the length bound over the alphabet {a, blank, ',', '(', ')', '/'} "
-        "(enumerated, distinct by construction); part 'unicode': Hypothesis lists of tokens drawn from "
+        "(enumerated, distinct by construction); part 'token-sequences': every sequence of up to 3 (quick) / 4 (thorough) "
+        "of 32 tokens incl. n/a, none, #, braces; part 'unicode': Hypothesis lists of tokens drawn from "
         "delimiters, blanks, other white space, real tag names, namespace prefixes, '#', ':' and arbitrary "
         "Unicode characters. Non-trivial = (>=1 tag and >=1 delimiter) or unbalanced parentheses.")
 ASSUMPTIONS = ["'blank' in the statement is U+0020 (the only character the tokenizer defines as spacing); other "
@@ -210,12 +211,30 @@ text_strategy = st.builds(
     st.sampled_from(["std", "grp"]))
 
 
+# every sequence of up to three (quick) / four (thorough) of these tokens: texts with special meanings elsewhere in
+# the library (n/a, empty, placeholders, braces) are ordinary text to the parser
+SEQ_TOKENS = ["(", ")", ",", " ", "/", "n/a", "N/A", "n", "a", "na", "none", "nan", "null", "#", "{", "}", ":", "Red",
+              "Label/x", "Def/a", "Onset", "HED", "\t", "0", "-", ".", "~", "[", "]", "sc:Red", "@", "\u00e9"]
+
+
+def make_seq_enum(maxlen):
+    def enum(shard, nshards):
+        def gen():
+            for n in range(1, maxlen + 1):
+                for tup in itertools.product(SEQ_TOKENS, repeat=n):
+                    yield "".join(tup)
+        return itertools.islice(gen(), shard, None, nshards)
+    return enum
+
+
 def parts(tier):
     maxlen = 7 if tier == "quick" else 9
     n_unicode = 20000 if tier == "quick" else 200000
     return [
         Part("exhaustive", oracle_exhaustive, enumerate_fn=make_enum(maxlen), exhaustive=True),
         Part("unicode", oracle_unicode, strategy=text_strategy, n=n_unicode),
+        Part("token-sequences", oracle_exhaustive, enumerate_fn=make_seq_enum(3 if tier == "quick" else 4),
+             exhaustive=True, distinct_by_construction=False),
     ]
 
 
